@@ -3,11 +3,11 @@
 // op "pair": payload = [source of a, source of b, source of a context function f ("" = none), flags]
 //
 //	Both programs are evaluated in this process, bound to `a` and `b`, and the real evaluator answers
-//	  e  a = b            q  b = a            c  {a, b} count      d  {a: 1}(b)
+//	  e  a = b            q  b = a            s  {a} = {b}         c  {a, b} count      d  {a: 1}(b)
 //	  r  repr(a) = repr(b) (fmt %v, what //str.repr prints)        l  a < b      g  b < a
 //	  f  f(a) = f(b)      F  canon(f(a)) = canon(f(b))  (both failing counts as equal)
 //	Only the letters present in flags are evaluated; the others print "-".
-//	observable: eq=..;qe=..;cnt=..;dict=..;repr=..;lt=..;gt=..;ctx=..;ctxden=..|canon(a)|canon(b)
+//	observable: eq=..;qe=..;set=..;cnt=..;dict=..;repr=..;lt=..;gt=..;ctx=..;ctxden=..|canon(a)|canon(b)
 //
 // op "rep": payload = [source of a, source of b]; observable: goRep(a)|goRep(b) — the concrete Go
 //
@@ -108,7 +108,7 @@ func init() {
 		if err != nil {
 			return "errB"
 		}
-		flags := "eqcdrlgfF"
+		flags := "eqscdrlgfF"
 		if len(p) > 3 {
 			flags = p[3]
 		}
@@ -125,6 +125,7 @@ func init() {
 		out := []string{
 			"eq=" + on("e", func() string { return ev("a = b") }),
 			"qe=" + on("q", func() string { return ev("b = a") }),
+			"set=" + on("s", func() string { return ev("{a} = {b}") }),
 			"cnt=" + on("c", func() string { return ev("{a, b} count") }),
 			"dict=" + on("d", func() string { return ev("{a: 1}(b)") }),
 			"repr=" + on("r", func() string { return fmt.Sprint(fmt.Sprintf("%v", va) == fmt.Sprintf("%v", vb)) }),
